@@ -40,12 +40,13 @@ type eth struct{}
 // PubKeyToAddr public key to address
 func (e *eth) PubKeyToAddr(pubKey []byte) string {
 	pubStr := string(pubKey)
+	// the cache holds the unformatted address: the format depends on the current block height
 	if value, ok := addrCache.Get(pubStr); ok {
-		return value.(string)
+		return formatAddr(value.(string))
 	}
 	addr := pubKey2EthAddr(pubKey)
 	addrCache.Add(pubStr, addr)
-	return addr
+	return formatAddr(addr)
 }
 
 // ValidateAddr address validation
@@ -87,16 +88,16 @@ func formatAddr(addr string) string {
 	return addr
 }
 
-// pubKey2EthAddr format eth addr
+// pubKey2EthAddr eth addr of the public key (checksum case, not yet formatted)
 func pubKey2EthAddr(pubKey []byte) string {
 
 	pub, err := crypto.DecompressPubkey(pubKey)
 	// ecdsa public key, compatible with ethereum, get address from eth api
 	if err == nil {
-		return formatAddr(crypto.PubkeyToAddress(*pub).String())
+		return crypto.PubkeyToAddress(*pub).String()
 	}
 	// just format as eth address if pubkey not compatible
 	var a common.Address
 	a.SetBytes(crypto.Keccak256(pubKey[1:])[12:])
-	return formatAddr(a.String())
+	return a.String()
 }
